@@ -192,6 +192,38 @@ func (e *Engine) kEval(pkg string, ex Expr) interface{} {
 				t = s.Field(idx).Type()
 			}
 			return big.NewInt(off)
+		case "bytearraylen": // length N of the unique *[N]byte conversion inside a function
+			str, ok := n.Args[0].(*EStr)
+			if !ok {
+				panic("bytearraylen(\"funckey\")")
+			}
+			fn := e.byKey[str.V]
+			if fn == nil {
+				panic("function not found: " + str.V)
+			}
+			found := int64(-1)
+			for _, b := range fn.Blocks {
+				for _, ins := range b.Instrs {
+					v, ok := ins.(ssa.Value)
+					if !ok {
+						continue
+					}
+					if pt, ok := v.Type().Underlying().(*types.Pointer); ok {
+						if at, ok := pt.Elem().Underlying().(*types.Array); ok {
+							if bt, ok := at.Elem().Underlying().(*types.Basic); ok && bt.Kind() == types.Uint8 {
+								if found >= 0 && found != at.Len() {
+									panic("more than one byte-array length in " + str.V)
+								}
+								found = at.Len()
+							}
+						}
+					}
+				}
+			}
+			if found < 0 {
+				panic("no *[N]byte conversion in " + str.V)
+			}
+			return big.NewInt(found)
 		case "numfields":
 			t, rest := e.kPath(pkg, n.Args[0])
 			t = e.walkFields(t, rest)
